@@ -264,7 +264,7 @@ def run(chk):
                 "(depth<=3, dims/batch in {1,2,3}, axes 0..9). Each line is executed by the real library (ASan/UBSan build of /repo), by the "
                 "Lean model and by the Lean specification. Non-trivial = the implementation accepted the call (output starts with ok); "
                 "distinct = distinct operation lines.")
-    ob = chk.obligations(MODS)
+    ob = chk.obligations(MODS, drivers=["shape", "shapespec"])
     n = 6000 if quick else 120000
     lines = []
     seen = set()
